@@ -16,8 +16,8 @@ API (all over the shared AST, parametric in `N : NumOps` and `E : EvalOps N`):
 Every number operation darklua performs with the IEEE operation the reference semantics also
 uses is the SAME `N.…` call here (`+ - * / ^`, unary minus, `< <=`, `len as f64`). `//` and `%` are
 computed by darklua as `floor(a/b)` and `a - b*floor(a/b)`: modelled literally (with `N.floor`).
-What darklua does differently from Lua is an extra primitive in `EvalOps`:
-* `epsEq a b`   — `(a - b).abs() < f64::EPSILON` (`evaluate_equal`)
+`==` on numbers is IEEE equality (`N.eq`; the former `(a - b).abs() < f64::EPSILON` test was finding
+F1/F2, fixed). What darklua does differently from Lua is an extra primitive in `EvalOps`:
 * `fmtRust x`   — `f64::to_string` (`string_coercion`)
 * `parseLit s`  — `s.parse::<NumberExpression>().ok().map(compute_value)` on UTF-8 text
                   (`number_coercion`, after `from_utf8`, `trim` and the leading `-` are handled here)
@@ -40,8 +40,6 @@ instance {N : NumOps} : Inhabited (LuaValue N) := ⟨.unknown⟩
 
 /-- the primitives of the evaluator that are NOT operations of the reference semantics -/
 structure EvalOps (N : NumOps) where
-  /-- `(a - b).abs() < f64::EPSILON` -/
-  epsEq : N.F → N.F → Bool
   /-- Rust `f64::to_string` -/
   fmtRust : N.F → List UInt8
   /-- `text.parse::<NumberExpression>().ok().map(|n| n.compute_value())` (text is valid UTF-8) -/
@@ -161,7 +159,7 @@ def evaluateEqual (E : EvalOps N) : LuaValue N → LuaValue N → LuaValue N
   | .true_, .true_ => .true_
   | .false_, .false_ => .true_
   | .nil, .nil => .true_
-  | .number a, .number b => .ofBool (E.epsEq a b)
+  | .number a, .number b => .ofBool (N.eq a b)
   | .string a, .string b => .ofBool (a == b)
   | _, _ => .false_
 
@@ -408,7 +406,9 @@ mutual
   def hseSegs (E : EvalOps N) (pure : Bool) : List Seg → Bool
     | [] => false
     | .s _ :: rest => hseSegs E pure rest
-    | .v e :: rest => hasSideEffects E pure e || hseSegs E pure rest
+    | .v e :: rest =>
+      -- the value is converted with `tostring`, which can call `__tostring` (F4, fixed)
+      ((!pure && maybeMetatable (evaluate E e)) || hasSideEffects E pure e) || hseSegs E pure rest
 end
 
 end DarkluaModel.Evaluator
